@@ -292,6 +292,13 @@ func govDump(w *appx.World, a *app.ShutterApp) string {
 	return canon.Dump(c, &canon.Options{Skip: map[string]bool{"ShutterApp.LastSaved": true, "ShutterApp.Gobpath": true, "ShutterApp.CheckTxState": true}, NilEqualsEmpty: true})
 }
 
+// dumpNoNonces renders the state with the consumed-nonce sets left out.
+func dumpNoNonces(a *app.ShutterApp) string {
+	c := appx.Clone(a)
+	c.NonceTracker.RandomNonces = nil
+	return canon.Dump(c, &canon.Options{Skip: map[string]bool{"ShutterApp.LastSaved": true, "ShutterApp.Gobpath": true, "ShutterApp.CheckTxState": true}, NilEqualsEmpty: true})
+}
+
 type c10Replay struct {
 	History int      `json:"history"`
 	Inject  []c10Inj `json:"inject"`
@@ -325,6 +332,10 @@ func c10Inject(w *appx.World, b *c10base, injs []c10Inj) (string, string, string
 			x := injs[ii].H
 			ii++
 			before := appx.StateDump(a)
+			beforeNN := ""
+			if x.Class == "member" {
+				beforeNN = dumpNoNonces(a)
+			}
 			// mempool check on a copy (CheckTx only touches the mempool scratch state)
 			var cr abcitypes.ResponseCheckTx
 			ca := appx.Clone(a)
@@ -362,6 +373,16 @@ func c10Inject(w *appx.World, b *c10base, injs []c10Inj) (string, string, string
 				}
 			case "member":
 				memberInjected = true
+				if dr.Code != 0 {
+					// refused although correctly signed by a member (structurally invalid or
+					// inapplicable payload): no events and no effect besides the consumed nonce
+					if len(dr.Events) != 0 {
+						return "", "C10/refused-tx-emits-events", fmt.Sprintf("refused member transaction (%s, code %d) emits events %v", x.Desc, dr.Code, dr.Events)
+					}
+					if b4, now := beforeNN, dumpNoNonces(a); b4 != now {
+						return "", "C10/refused-tx-changes-state", fmt.Sprintf("member transaction (%s) is refused with code %d (%s) but changes the application state\nbefore: %s\nafter:  %s", x.Desc, dr.Code, dr.Log, b4, now)
+					}
+				}
 				if appx.StateDump(a) != before {
 					changed = true
 				}
